@@ -63,3 +63,28 @@ def roundtrip_extended(size, n, k1, v1, k2, v2):
         assert k in b.attr
         assert b.attr[k] == v
     assert r.get_remainder() == bytes()
+
+
+def decodes_are_independent(size, k1, v1):
+    """what one object decoded (or was given) never shows up in another: a decode of a block WITHOUT the EXTENDED flag, after
+    one with it, yields no extended attributes, and re-encodes none"""
+    from paramiko.message import Message
+    from paramiko.sftp_attr import SFTPAttributes
+    a = SFTPAttributes()
+    a.st_size = size
+    a.attr[k1] = v1
+    m = Message()
+    a._pack(m)
+    first = SFTPAttributes()
+    first._unpack(Message(m.asbytes()))
+    assert len(first.attr) == 1
+    # a second, unrelated attribute set: size only
+    c = SFTPAttributes()
+    c.st_size = size
+    assert len(c.attr) == 0
+    m2 = Message()
+    c._pack(m2)
+    second = SFTPAttributes()
+    second._unpack(Message(m2.asbytes()))
+    assert (second._flags & 0x80000000 != 0) == False
+    assert len(second.attr) == 0
